@@ -8,6 +8,8 @@
 (* differs from the set model is reported with its position and the expected answer (PrintT "MISMATCH") and the   *)
 (* trace continues, so that one TLC run lists every deviating answer of a long history.                           *)
 EXTENDS TupleSetAbs, TLC, TraceDataModule   \* TraceDataModule (generated) defines TraceData
+CONSTANT Tolerant   \* TRUE only for histories without overlapping calls (there RetPossible is exact): an inexplicable insert
+                    \* result is reported like a deviating query answer and the trace continues with the tuple inserted
 VARIABLE l
 tvars == <<S, pend, l>>
 TInit == AInit /\ l = 1
@@ -27,7 +29,10 @@ TNext == /\ l <= Len(TraceData)
          /\ l' = l + 1
          /\ CASE Ev.e = "reset" -> S' = {} /\ pend' = [c \in Clients |-> Idle]
               [] Ev.e = "call"  -> Call(Ev.c, Ev.t)
-              [] Ev.e = "ret"   -> Ret(Ev.c, Ev.ok)
+              [] Ev.e = "ret"   -> IF Tolerant /\ ~RetPossible(Ev.c, Ev.ok)
+                                   THEN /\ Report(FALSE, <<"insert must report", pend[Ev.c].t \notin S>>)
+                                        /\ S' = S \cup {pend[Ev.c].t} /\ pend' = [pend EXCEPT ![Ev.c] = Idle]
+                                   ELSE Ret(Ev.c, Ev.ok)
               [] OTHER          -> Query
 TSpec == TInit /\ [][TNext]_tvars
 Accepted == TLCGet("stats").diameter - 1 = Len(TraceData)
